@@ -56,6 +56,14 @@ type Options struct {
 	// DelegatorAcct, if > 0, makes dev account number DelegatorAcct-1 the "delegator contract" of the staker
 	// (params key delegator-contract-address): that account may call staker.addDelegation.
 	DelegatorAcct int
+	// HayabusaTP is thor.Config.HayabusaTP (transition period in blocks); 0 keeps the default of this simulator (0).
+	HayabusaTP uint32
+	// Hayabusa, with PoS, puts the HAYABUSA fork at this height instead of 0.
+	Hayabusa uint32
+	// NoGenesisStakers, with PoS, leaves genesis.Stakers empty: the chain starts in PoA with the authorities and
+	// validators have to queue through real addValidation transactions; the real SyncPOS transition fires once enough
+	// are queued.
+	NoGenesisStakers bool
 }
 
 // DefaultLaunch is a fixed genesis time far enough in the past that no generated block is a "future block".
@@ -158,6 +166,8 @@ func NewNet(o Options) *Net {
 	fc := &thor.ForkConfig{} // every fork at 0
 	if !o.PoS {
 		fc.HAYABUSA = math.MaxUint32
+	} else if o.Hayabusa != 0 {
+		fc.HAYABUSA = o.Hayabusa
 	}
 	if o.NoGalactica {
 		fc.GALACTICA = math.MaxUint32
@@ -175,12 +185,12 @@ func NewNet(o Options) *Net {
 		auths = append(auths, genesis.Authority{MasterAddress: devs[i].Address, EndorsorAddress: devs[i].Address, Identity: thor.BytesToBytes32([]byte("m"))})
 	}
 	var stakers []genesis.Validator
-	if o.PoS {
+	if o.PoS && !o.NoGenesisStakers {
 		for i := 0; i < o.Validators; i++ {
 			stakers = append(stakers, genesis.Validator{Master: devs[i].Address, Endorser: devs[i].Address})
 		}
 	}
-	tp := uint32(0)
+	tp := o.HayabusaTP
 	mbp := o.MBP
 	launch := o.LaunchTime
 	if launch == 0 {
